@@ -31,7 +31,8 @@ Inductive config_ast :=
 Inductive obs_type := ObsDefault | ObsHistogram | ObsSummary.
 Inductive load_err :=
 | EYaml | EEnum | ELabelKey | ENoName | EBadName | EBadMatch | EBadRegex
-| EBothQuantiles | EBothBuckets | EHistWithSummaryOpts | ESummWithHistOpts.
+| EBothQuantiles | EBothBuckets | EHistWithSummaryOpts | ESummWithHistOpts
+| EBadBuckets | EBadSummary.
 Inductive lres (A : Type) := LOk (a : A) | LErr (e : load_err).
 Arguments LOk {A} a. Arguments LErr {A} e.
 Definition lbind {A B} (r : lres A) (f : A -> lres B) : lres B :=
@@ -164,6 +165,16 @@ Definition opt_list_len {A} (o : option (list A)) : nat := match o with Some l =
 Definition opt_is_some {A} (o : option A) : bool := match o with Some _ => true | None => false end.
 Definition opt_list {A} (o : option (list A)) : list A := match o with Some l => l | None => [] end.
 
+(* validateHistogramOptions / validateSummaryOptions *)
+Fixpoint buckets_increasing (b : list F64) : bool :=
+  match b with
+  | x :: ((y :: _) as r) => f_ltb x y && buckets_increasing r
+  | _ => true
+  end.
+Definition quantile_ok (q : F64) : bool := f_leb f_zero q && f_leb q f_one.
+Definition summary_ok (s : summ_opts) : bool :=
+  forallb (fun qe => quantile_ok (fst qe)) (so_quantiles s) && (0 <=? so_max_age s)%Z.
+
 (* MapperConfigDefaults.UnmarshalYAML + the defaulting at the top of InitFromYAMLString *)
 Definition load_defaults (d : option defaults_ast) : lres (defaults * option bool) :=
   match d with
@@ -255,6 +266,9 @@ Definition load_rule (d : defaults) (dmt : option bool) (a : rule_ast) : lres ru
            LOk (option_map (fun h => {| ho_buckets := opt_list (ha_buckets h) |}) (ra_hist a),
                 option_map summ_of_ast (ra_summary a))
          end) in
+      if negb (match fst hs with Some h => buckets_increasing (ho_buckets h) | None => true end) then LErr EBadBuckets
+      else if negb (match snd hs with Some s => summary_ok s | None => true end) then LErr EBadSummary
+      else
       let ttl := if (ra_ttl a =? 0)%Z && (0 <? df_ttl d)%Z then df_ttl d else ra_ttl a in
       LOk {| ru_match := ra_match a; ru_name := ra_name a; ru_labels := ra_labels a; ru_honor := ra_honor a;
              ru_observer := ot; ru_is_regex := is_regex; ru_help := ra_help a; ru_drop := act;
@@ -280,6 +294,8 @@ Definition load (ast : config_ast) : lres config :=
                        dec_match_type (ra_match_type a), dec_action (ra_action a), dec_metric_type (ra_mmt a) with
                  | LOk _, LOk _, LOk _, LOk _, LOk _ => true
                  | _, _, _, _, _ => false end) rules then LOk tt else LErr EEnum) in
+    let? _ := (if negb (buckets_increasing (df_buckets (fst dd))) then LErr EBadBuckets
+               else if negb (summary_ok (df_summary (fst dd))) then LErr EBadSummary else LOk tt) in
     let? rs := load_rules (fst dd) (snd dd) rules in
     LOk {| cf_defaults := fst dd; cf_rules := rs;
            cf_do_fsm := existsb (fun r => negb (ru_is_regex r)) rs;
